@@ -22,6 +22,12 @@ def bump(num, d=1):
     return project.num(float(num['v']) + d)
 
 
+def near(num):
+    """a value that differs from a float in the 12th significant digit only (tolerant comparisons confuse them)"""
+    x = float(num['v'])
+    return project.num(x * (1 + 1e-12) if x else 1e-300)
+
+
 def mutants(prog):
     """all single-point mutants (as (description, program))"""
     out = []
@@ -34,6 +40,8 @@ def mutants(prog):
                 for a, arg in enumerate(s['args']):
                     if arg['k'] == 'num':
                         out.append(('numeric argument', p, lambda x, a=a: x['args'].__setitem__(a, bump(x['args'][a]))))
+                        if arg['t'] != 'int':
+                            out.append(('numeric argument (12th digit)', p, lambda x, a=a: x['args'].__setitem__(a, near(x['args'][a]))))
                     elif arg['k'] == 'qubit' and arg['idx']['k'] == 'num':
                         out.append(('qubit index', p, lambda x, a=a: x['args'][a].update(
                             idx=project.num(0 if int(x['args'][a]['idx']['v']) else 1))))
@@ -77,6 +85,10 @@ def mutants(prog):
         q = copy.deepcopy(prog)
         q['lets'][j]['val'] = bump(q['lets'][j]['val'])
         res.append(('let value', q))
+        if l['val']['t'] != 'int':
+            q = copy.deepcopy(prog)
+            q['lets'][j]['val'] = near(q['lets'][j]['val'])
+            res.append(('let value (12th digit)', q))
     for j, r in enumerate(prog['regs']):
         for fld in ('size', 'idx', 'start', 'stop', 'step'):
             if r[fld]['k'] == 'num':
